@@ -25,6 +25,8 @@ def enc(v):
     if isinstance(v, list):
         return [enc(x) for x in v]
     if isinstance(v, dict):
+        if all(type(k) is str and not k.startswith('$') for k in v):
+            return {k: enc(x) for k, x in v.items()}
         return {'$dict': [[enc(k), enc(x)] for k, x in v.items()]}
     if isinstance(v, slice):
         return {'$slice': [enc(v.start), enc(v.stop), enc(v.step)]}
@@ -36,6 +38,14 @@ def enc(v):
             return enc(v.item())
     except Exception:
         pass
+    cls = type(v)
+    if (getattr(cls, '__module__', '') or '').startswith('formulas') and not isinstance(v, BaseException):
+        names = []
+        for k in cls.__mro__:
+            names.extend(getattr(k, '__slots__', ()))
+        names.extend(getattr(v, '__dict__', {}).keys())
+        return {'$obj': '%s:%s' % (cls.__module__, cls.__qualname__),
+                'fields': {n: enc(getattr(v, n)) for n in names if hasattr(v, n)}}
     return {'$repr': repr(v)[:300]}
 
 
@@ -62,6 +72,16 @@ def dec(v):
             return np.asarray(dec(v['$ndarray']), object)
         if '$str' in v:
             return v['$str']
+        if '$obj' in v:
+            import importlib
+            mod, _, qn = v['$obj'].partition(':')
+            cls = importlib.import_module(mod)
+            for part in qn.split('.'):
+                cls = getattr(cls, part)
+            o = cls.__new__(cls)
+            for k, x in v['fields'].items():
+                object.__setattr__(o, k, dec(x))
+            return o
         if '$repr' in v:
             return v['$repr']
         return {k: dec(x) for k, x in v.items()}
